@@ -7,7 +7,7 @@ from __future__ import annotations
 from . import _checks as K
 from . import _formats as F
 
-MODULES_W = ["_fcidumpw", "_poscarw", "_fchkw", "_wfnw", "_qcsw", "_xyzcols"]
+MODULES_W = ["_fcidumpw", "_poscarw", "_fchkw", "_wfnw", "_wfxw", "_qcsw", "_xyzcols"]
 
 
 def _mods():
